@@ -638,3 +638,21 @@ def m_hasher_finish(c, h):
         return BV(64, 0x1234)
     ip.env.setdefault('hash_inputs', []).append(list(hs.items))
     return bv(64, hash_uf(n)(*[x.z() for x in hs.items]))
+
+
+@model(r'^' + SETT + r'::<.*>::(first|last)$')
+def m_set_first(c, p):
+    """BTreeSet::first/last: minimum / maximum element (ordering decided by forking on comparisons)."""
+    ip = c.ip
+    m = mapobj(ip, p)
+    if not m.entries:
+        return none(ip)
+    best = m.entries[0][0]
+    for k, _ in m.entries[1:]:
+        if not (isinstance(k, BV) and isinstance(best, BV)):
+            raise Inconclusive("BTreeSet ordering on non-integers")
+        lt = ip.binop('Lt', k, best, False, 'btreeset')
+        take = ip.branch(lt if c.m.group(1) == 'first' else mkbool(neg(as_cond(lt))), 'btreeset_order')
+        if take:
+            best = k
+    return some(ip, Ptr(Cell(best, 'setelt'), ()))
